@@ -4,6 +4,7 @@ import RustCcModel.Model.Shapes
 import RustCcModel.Model.Layout
 import RustCcModel.Model.Derive
 import RustCcModel.Model.Lists
+import Std.Data.HashMap
 open RustCc
 
 structure DState where
@@ -228,6 +229,67 @@ partial def shapesLoop (h out : IO.FS.Stream) : IO Unit := do
   | _ => out.putStrLn "bad"
   shapesLoop h out
 
+/-! `cover` mode: the same programs, but every micro-step is tallied by machine mode, kind of the frame on top of the
+stack and (for a script frame) kind of the operation it is about to execute: which branches of the model the generated
+programs actually reach. -/
+namespace Cover
+
+def ctorName (s : String) : String :=
+  let t := (s.splitOn " ").headD ""
+  let t := (t.splitOn "\n").headD ""
+  ((t.splitOn ".").getLast?.getD t).replace "(" ""
+
+def tagOf (w : World) : String :=
+  let m := match w.mode with
+    | .running => "run" | .unwinding => "unw" | .aborted => "abt" | .stuck => "stk"
+  match w.stack with
+  | [] => m ++ "/-"
+  | f :: _ =>
+    match f with
+    | .script (op :: _) _ _ _ => m ++ "/script:" ++ ctorName (toString (repr op))
+    | .script [] _ _ _ => m ++ "/script:end"
+    | .collectPass => m ++ "/collectPass"
+    | .finalizePass _ r _ _ => m ++ "/finalizePass" ++ (if r.isEmpty then ":end" else "")
+    | .deallocDrop _ r _ => m ++ "/deallocDrop" ++ (if r.isEmpty then ":end" else "")
+    | _ => m ++ "/" ++ ctorName (toString (repr f))
+
+partial def runCov (c : Cfg) (fuel : Nat) (n : Nat) (w : World) (acc : Std.HashMap String Nat) : World × Std.HashMap String Nat :=
+  if fuel = 0 then (w, acc)
+  else if w.stack.isEmpty ∧ w.mode = .running then (w, acc)
+  else if w.mode = .aborted ∨ w.mode = .stuck then (w, acc)
+  else
+    let t := tagOf w
+    let acc := acc.insert t (acc.getD t 0 + 1)
+    let w' := step c w
+    if n ≥ 16 then runCov c (fuel - 1) 0 w'.compact acc else runCov c (fuel - 1) (n + 1) w' acc
+
+def execTopCov (c : Cfg) (fuel : Nat) (w : World) (op : Op) (acc : Std.HashMap String Nat) : World × Std.HashMap String Nat :=
+  if w.mode = .aborted ∨ w.mode = .stuck then (w, acc)
+  else
+    let r := runCov c fuel 0 { w with stack := [.script [op] none none true, .catchTop], events := [], ret := .ok } acc
+    (r.1.compact, r.2)
+
+end Cover
+
+partial def coverLoop (h : IO.FS.Stream) (out : IO.FS.Stream) (st : DState) (acc : Std.HashMap String Nat) : IO Unit := do
+  let line ← h.getLine
+  if line.isEmpty then
+    let l := acc.toList.toArray.qsort (fun a b => a.1 < b.1)
+    for (k, v) in l do
+      out.putStrLn s!"cov {k} {v}"
+    return ()
+  let toks := splitToks line
+  let isOp := st.running && (match toks with | [] => false | "#" :: _ => false | ["end"] => false | "program" :: _ => false | _ => true)
+  if isOp then
+    match parseOp toks with
+    | some op =>
+      let (w, acc') := Cover.execTopCov st.cfg 2000000 st.world op acc
+      coverLoop h out { st with world := w } acc'
+    | none => coverLoop h out st acc
+  else
+    let (st', _) := handle st line
+    coverLoop h out st' acc
+
 /-! `lists` mode: one case per line, `<n> <op> <op> …`; the answer is the state after each operation. -/
 namespace ListsDriver
 open RustCc.Lists
@@ -309,4 +371,5 @@ def main (args : List String) : IO Unit := do
   | ["policy"] => policyLoop stdin stdout
   | ["shapes"] => shapesLoop stdin stdout
   | ["lists"] => listsLoop stdin stdout
+  | ["cover"] => coverLoop stdin stdout {} {}
   | _ => loop stdin stdout {}
